@@ -2126,6 +2126,12 @@ def rule_sweepstop(text):
     return text, apps
 
 
+def _lit(s):
+    """whitespace-tolerant regex for a literal piece of Rust text: tokens separated by optional whitespace"""
+    toks = re.findall(r"\w+|[^\w\s]", s)
+    return r"\s*".join(re.escape(x) for x in toks)
+
+
 def rule_uringmisc(text):
     """the io_uring write path (io.rs): InFlightBuffers, completion handling, batch_write_inner"""
     apps = []
@@ -2139,7 +2145,34 @@ def rule_uringmisc(text):
         (r"io::Error::new\(" + ws + r"io::ErrorKind::WriteZero," + ws + r"format!\(\"[^\"]*\"\)," + ws + r"\)", "io_error_short_write(result, expected)", "R-ioerr", "shim: an opaque std::io::Error (message dropped)"),
         (r"\bio::Result<", "IoResult<", "R-ioerr", "std::io::Result with the opaque error type"),
         (r"for" + ws + r"cqe" + ws + r"in" + ws + r"ring\.completion\(\)" + ws + r"\{", "while let Some(cqe) = ring.next_cqe() {", "R-cq",
-         "definition of iterating the completion queue: entries are consumed one by one until none is left (A37)"),
+         "definition of iterating the completion queue: entries are consumed one by one until none is left (A38)"),
+        # ---- batch_write_inner ----
+        (_lit("for (sector, data) in writes {"),
+         "let mut wi_: usize = 0; while wi_ < writes.len() { let (sector, data) = (&writes[wi_].0, &writes[wi_].1); wi_ += 1;", "R-for",
+         "definition of iterating a slice of pairs: an index loop, the pattern's names bound to references to the two fields"),
+        (_lit("data.as_slice()"), "data_as_slice(data)", "R-handle", "shim: BatchWriteData::as_slice (the bytes of a Vec<u8> / Bytes)"),
+        (_lit("for chunk in writes.chunks(IOURING_MAX_BATCH) {"),
+         "let mut ci_: usize = 0; while ci_ < writes.len() { let ce_: usize = min_usize(IOURING_MAX_BATCH, writes.len() - ci_) + ci_; let chunk = slice_subrange(writes, ci_, ce_); ci_ = ce_;",
+         "R-chunks", "definition of slice::chunks(n) as an index loop: consecutive sub-slices of n elements, the last one shorter"),
+        (_lit("for (_sector, data) in chunk {"), "let mut bi_: usize = 0; while bi_ < chunk.len() { let data = &chunk[bi_].1; bi_ += 1;", "R-for",
+         "definition of iterating a slice of pairs: an index loop"),
+        (_lit("let data = data_as_slice(data); let mut aligned = AlignedBuffer::new(data.len())?; aligned.set_len(data.len()); aligned.as_mut_slice().copy_from_slice(data); buffers.push(PendingWriteBuffer::Aligned(aligned));"),
+         "buffers.push(pending_aligned(data)?);", "R-handle",
+         "shim: the O_DIRECT arm - an AlignedBuffer of the data's length filled with the data (allocation, bounds and free of AlignedBuffer: Kani unit aligned_buffer)"),
+        (_lit("buffers.push(PendingWriteBuffer::Shared(data.retain_for_write()));"), "buffers.push(pending_shared(data));", "R-handle",
+         "shim: a buffer sharing (Bytes) or copying (Vec) the data"),
+        (_lit("let mut sq = ring.submission();"), "", "R-sq", "the submission queue borrowed from the ring: pushes are made on the ring handle (A38)"),
+        (_lit("for (i, (sector, _)) in chunk.iter().enumerate() {"), "let mut i_: usize = 0; while i_ < chunk.len() { let i = i_; i_ += 1; let sector = chunk[i].0;", "R-for",
+         "definition of iter().enumerate() over a slice of pairs: an index loop (the index advances at the top so that `break` needs no bookkeeping); the sector is copied instead of borrowed"),
+        (_lit("opcode::Write::new( types::Fd(self.fd), buffer.as_ptr(), buffer.len() as u32, ) .offset(offset) .build() .user_data(") + r"([^;]*?)\)" + ws + ";",
+         r"build_write_entry(self.fd, buffer.as_ptr(), buffer.len() as u32, offset, \1);", "R-handle", "shim: the io_uring write entry with its fd, buffer pointer, length, offset and user_data (arguments verbatim)"),
+        (_lit("unsafe { sq.push(&write_e) }"), "ring.sq_push(&write_e)", "R-sq", "shim: SubmissionQueue::push (unsafe: the kernel will read from the entry's buffer until its completion is consumed - A38)"),
+        (_lit("(queued != chunk.len()).then(|| FeoxError::IoError(io::Error::other(\"SQ full\")))"), "(if queued != chunk.len() { Some(FeoxError::IoError(io_error_other())) } else { None })", "R-then",
+         "definition of bool::then; opaque io error"),
+        (_lit("error.kind() == io::ErrorKind::Interrupted"), "error.is_interrupted()", "R-ioerr", "shim: the kind of an opaque io error"),
+        (_lit("mark_file_indeterminate(self.file_identity, &self._file);"), "mark_file_indeterminate(&self.file_identity, &self._file, &mut self.file_marked);", "R-mark",
+         "shim: the process-wide registry of indeterminate files, with a ghost flag on the handle"),
+        (_lit("drop(self.ring.take());"), "drop_ring(&mut self.ring);", "R-take", "shim: Option::take + drop of the ring (the handle is gone; what the kernel holds is unaffected)"),
     ]
     for pat, rep, rname, why in table:
         n = 0
